@@ -258,6 +258,43 @@ def trace_conf(records, cfgrec, wd, name, timeout, max_restarts=4, appname=None)
         rej += r[2]
     return acc, rej
 
+CROSS = 60          # replayed programs whose predicted verdict is cross-checked by running the monitors on the recorded stream
+NEED_CAP = 2500     # at most this many deviating programs go through the monitors (the rest only count as drift)
+
+def judge(hists, obs, extra, wd, name, timeout):
+    """Monitor verdicts for replayed programs (hists[i] = the model's prediction with ITS verdict, obs[i] = the recorded execution)
+    and for `extra` recorded executions without a prediction. A recorded stream that equals the prediction record for record has
+    the prediction's verdict (the monitors are a function of the stream; TLC computed it in Gen.tla); every other stream, the
+    extra ones and a sample of the equal ones (cross-check) are run through TraceProps.
+    Returns (violations [{id,p,why,l}], records judged, drift [(id, index of the first differing record)])."""
+    matched, need, drift = [], [], []
+    for h, r in zip(hists, obs):
+        d = progs.first_diff(h, r["stream"])
+        if d < 0:
+            matched.append((h, r))
+        else:
+            need.append(r)
+            drift.append((r["id"], d))
+    viol = []
+    nrec = 0
+    for h, r in matched[CROSS:]:
+        nrec += len(r["stream"]) + 1
+        for pw in h.viol:
+            viol.append(dict(id=str(r["id"]), p=pw[0], why=pw[1], l=-1))
+    sample = matched[:CROSS]
+    through = [r for h, r in sample] + need[:NEED_CAP] + list(extra)
+    tp, n2 = trace_props(through, wd, name, timeout) if through else ([], 0)
+    nrec += n2
+    got = {}
+    for v in tp:
+        got.setdefault(v["id"], set()).add((v["p"], v["why"]))
+    for h, r in sample:
+        if got.get(str(r["id"]), set()) != set(tuple(x) for x in h.viol):
+            raise ToolError("verdict computed by TLC in Gen.tla and verdict of TraceProps differ for program %s: %s vs %s"
+                            % (r["id"], sorted(set(tuple(x) for x in h.viol)), sorted(got.get(str(r["id"]), set()))))
+    viol += tp
+    return viol, nrec, drift
+
 # ----------------------------------------------------------------------------------------------------------------
 
 def save_replay(prop, rec):
@@ -282,6 +319,23 @@ def check_property(prop, tier, seed):
     violations = []          # (violation, record)
     knownhits = {}
     model_alarm = None
+    # the failing histories of the known findings listed for this property, replayed first
+    for k in known:
+        if k["property"] != prop or not k.get("replay"):
+            continue
+        body = json.load(open(os.path.join(ROOT, k["replay"])))
+        p0 = dict(body["program"])
+        p0["id"] = "finding-" + k["id"]
+        o0 = harness_replay([p0], wd, "finding_" + k["id"])
+        v0, n0 = trace_props(o0, wd, "finding_" + k["id"], 300)
+        cov["records_validated"] += n0
+        if any(v["p"] == prop and is_known(v, known) for v in v0):
+            knownhits.setdefault(k["id"], k)
+        else:
+            notes.append("known finding %s did not reproduce on this tree (replay %s)" % (k["id"], k["replay"]))
+        for v in v0:
+            if v["p"] == prop and not is_known(v, known):
+                violations.append((v, o0[0]))
     for gname in groups:
         group = configs.GROUPS[gname]
         g = dict()
@@ -316,21 +370,16 @@ def check_property(prop, tier, seed):
             p["id"] = "%s-gen-%d" % (gname, i)
             programs.append(p)
         obs = harness_replay(programs, wd, gname + "_gen")
-        drift = []
-        for h, r in zip(hists, obs):
-            d = progs.first_diff(h, r["stream"])
-            if d >= 0:
-                drift.append((r["id"], d))
-        g["gen"] = dict(behaviours=len(hists), drift=len(drift), first_drift=drift[:3], wall_s=round(gres.wall, 1) if gres else 0)
-        cov["behaviours_replayed"] += len(hists)
-        cov["drift"] += len(drift)
-        # (c) impl -> spec: random programs of the same alphabet, plus the replayed ones
+        # (c) impl -> spec: random programs of the same alphabet
         rcfg = dict(group["rnd"])
         rcfg.setdefault("cfg", {})
         rnd = harness_random(rcfg, seed, max(20, int(configs.TIERS[tier]["rnd_n"] * rcfg.get("rnd_scale", 1.0))), wd, gname)
         cov["random_programs"] += len(rnd)
         allrecs = obs + rnd
-        viol, nrec = trace_props(allrecs, wd, gname, configs.TIERS[tier]["tp_timeout"])
+        viol, nrec, drift = judge(hists, obs, rnd, wd, gname, configs.TIERS[tier]["tp_timeout"])
+        g["gen"] = dict(behaviours=len(hists), drift=len(drift), first_drift=drift[:3], wall_s=round(gres.wall, 1) if gres else 0)
+        cov["behaviours_replayed"] += len(hists)
+        cov["drift"] += len(drift)
         cov["records_validated"] += nrec
         byid = {str(r["id"]): r for r in allrecs}
         bad_ids = set()
@@ -349,7 +398,7 @@ def check_property(prop, tier, seed):
         acc, rej = trace_conf(rnd, cfgrec, wd, gname, configs.TIERS[tier]["tc_timeout"], appname=group.get("subst", {}).get("AppRegs"))
         g["conf"] = dict(accepted=len(acc), rejected=len(rej), first_rejected=rej[:3])
         cov["drift"] += len(rej)
-        ok_ids = set(str(i) for i in acc) | {str(r["id"]) for h, r in zip(hists, obs) if progs.first_diff(h, r["stream"]) < 0}
+        ok_ids = set(str(i) for i in acc) | ({str(r["id"]) for r in obs} - {str(i) for i, d in drift})
         cov["traces_validated_against_impl"] += len([i for i in ok_ids if i not in bad_ids])
         if len(cov["samples"]) < 4 and allrecs:
             cov["samples"].append({"group": gname, "program": allrecs[0]["program"], "stream_head": allrecs[0]["stream"][:12]})
@@ -370,14 +419,9 @@ def check_property(prop, tier, seed):
             p["id"] = "%s-enum-%d" % (ename, i)
             programs.append(p)
         obs = harness_replay(programs, wd, ename + "_enum") if programs else []
-        nd = 0
-        okids = set()
-        for h, r in zip(hists, obs):
-            if progs.first_diff(h, r["stream"]) >= 0:
-                nd += 1
-            else:
-                okids.add(str(r["id"]))
-        viol, nrec = trace_props(obs, wd, ename + "_enum", configs.TIERS[tier]["tp_timeout"]) if obs else ([], 0)
+        viol, nrec, edrift = judge(hists, obs, [], wd, ename + "_enum", configs.TIERS[tier]["tp_timeout"])
+        nd = len(edrift)
+        okids = {str(r["id"]) for r in obs} - {str(i) for i, d in edrift}
         byid = {str(r["id"]): r for r in obs}
         bad_ids = set()
         for v in viol:
